@@ -434,6 +434,53 @@ static void run_library(int variant, int ui) {
             R->count("nontrivial");
         }
     }
+    // ---- (h) rewriting timestamps of a file whose cells carry OTHER stamps than its library record
+    //      (raw cells copied into a library saved at another time keep their own BGNSTR stamps)
+    {
+        tm t1 = FIXED_TM;
+        if (src.write_gds(path.c_str(), 199, &t1) != ErrorCode::NoError) R->internal_error("corpus re-write failed");
+        ErrorCode re = ErrorCode::NoError;
+        Map<RawCell*> raws = read_rawcells(path.c_str(), &re);
+        std::string out = R->scratch + fmt("/c17mixed.%d.gds", (int)getpid());
+        tm t2 = {};
+        t2.tm_year = 110; t2.tm_mon = 6; t2.tm_mday = 7; t2.tm_hour = 8; t2.tm_min = 9; t2.tm_sec = 10;
+        Library rl = {};
+        rl.init("MIXED", UNITS[ui].unit, UNITS[ui].precision);
+        for (MapItem<RawCell*>* it = raws.next(NULL); it; it = raws.next(it)) rl.rawcell_array.append(it->value);
+        tm t2w = t2;
+        if (rl.write_gds(out.c_str(), 0, &t2w) != ErrorCode::NoError) R->internal_error("mixed-stamp file not written");
+        rl.clear();
+        for (MapItem<RawCell*>* it = raws.next(NULL); it; it = raws.next(it)) { it->value->clear(); free_allocation(it->value); }
+        raws.clear();
+        for (int which = 0; which < 2; which++) {
+            // which 0: request exactly the time already stored in the library record; 1: another time
+            tm nt = t2;
+            if (which) { nt.tm_year = 99; nt.tm_mon = 11; nt.tm_mday = 31; }
+            cx.what = fmt("gds_timestamp(set) on a file whose cells carry other stamps than the library (%s)", which ? "new time" : "time equal to the library's");
+            ErrorCode se = ErrorCode::NoError;
+            gds_timestamp(out.c_str(), &nt, &se);
+            std::string after;
+            { FILE* f = fopen(out.c_str(), "rb"); char buf[65536]; size_t r; while ((r = fread(buf, 1, sizeof buf, f)) > 0) after.append(buf, r); fclose(f); }
+            int want[6] = {nt.tm_year + 1900, nt.tm_mon + 1, nt.tm_mday, nt.tm_hour, nt.tm_min, nt.tm_sec};
+            size_t p = 0, fields = 0, stale = 0;
+            while (p + 4 <= after.size()) {
+                size_t len = ((unsigned char)after[p] << 8) | (unsigned char)after[p + 1];
+                unsigned char rt = after[p + 2];
+                if (len < 4) break;
+                if ((rt == 0x01 || rt == 0x05) && len == 28)
+                    for (int w = 0; w < 12; w++) {
+                        int v = ((unsigned char)after[p + 4 + 2 * w] << 8) | (unsigned char)after[p + 5 + 2 * w];
+                        fields++;
+                        if (v != want[w % 6]) stale++;
+                    }
+                p += len;
+            }
+            if (se != ErrorCode::NoError || stale) viol(cx, "stamp", "stale-fields", {{"requested_equals_library_stamp", jbool(!which)}}, fmt("%zu of %zu timestamp words still hold an old value (code %d)", stale, fields, (int)se), fmt("part=mixedstamp which=%d", which));
+            R->count("cases");
+            R->count("nontrivial");
+        }
+        unlink(out.c_str());
+    }
     full.free_all();
     src.free_all();
     unlink(path.c_str());
